@@ -6,7 +6,8 @@ from harness import strategies as S
 from harness.core import Sub
 from harness.session import Session
 
-RULE = ("application configurations of 2..6 transceivers (BTS, MS, children, an extra parent and its children; varied ports and "
+RULE = ("(histories also repeat a frame number right after a re-configuration - late timeslot / restarted clock - routing follows the configuration in force) " +
+        "application configurations of 2..6 transceivers (BTS, MS, children, an extra parent and its children; varied ports and "
         "addresses) configured over TRXC (RXTUNE/TXTUNE from a pool of 4 frequencies so that matches are common, SETFH with "
         "1..6 channel pairs, SETFORMAT, RFMUTE, POWERON for ~80%), then 1..8 transmissions (any sender incl. powered-off "
         "ones, boundary-biased FN, attenuation mostly inside and sometimes outside the valid-RSSI region); every burst is "
